@@ -24,8 +24,8 @@ DRIVERS = ["secret", "configmap", "memory"]
 
 # exhaustive configurations (constants, replay cap) and simulation (constants, behaviours) per tier
 PLAN = {
-    "quick": dict(ex=[(dict(MaxLen=3, Full=False), None), (dict(MaxLen=4, Full=False), 1500)], sim=[(dict(MaxLen=4, Full=True), 400)]),
-    "thorough": dict(ex=[(dict(MaxLen=3, Full=True), None), (dict(MaxLen=4, Full=False), 15000)],
+    "quick": dict(ex=[(dict(MaxLen=3, Full=False), 8000)], sim=[(dict(MaxLen=4, Full=False), 1500), (dict(MaxLen=4, Full=True), 400)]),
+    "thorough": dict(ex=[(dict(MaxLen=3, Full=False), None), (dict(MaxLen=3, Full=True), 20000), (dict(MaxLen=4, Full=False), 15000)],
                      sim=[(dict(MaxLen=5, Full=True), 3000)]),
 }
 
@@ -39,7 +39,7 @@ def describe(c):
             parts.append("install chart%d %s" % (s["chart"], vl.show(s["vals"])))
         else:
             flag = {"default": "", "reset": " --reset-values", "reuse": " --reuse-values", "rtr": " --reset-then-reuse-values"}[s["mode"]]
-            parts.append("upgrade%s chart%d %s" % (flag, s["chart"], vl.show(s["vals"])))
+            parts.append("upgrade%s chart%d %s%s" % (flag, s["chart"], vl.show(s["vals"]), " (cluster update fails)" if s.get("fail") else ""))
     return "[%s] %s" % (c.get("driver", "secret"), " ; ".join(parts))
 
 
@@ -56,7 +56,7 @@ def judge(d, hv, chains):
         raise Inconclusive("the harness did not run the chain TLC exported (line %s, %s) %s" % m.groups())
     m = re.search(r'<<"OBSFAIL", (\d+), (\d+), "([^"]*)", "([^"]*)">>', out)
     if m:
-        raise Inconclusive("operation %s of chain %s failed on the real code: %s (%s)"
+        raise Inconclusive("operation %s of chain %s did not run as the chain plans (outcome / revision statuses): %s (%s)"
                            % (m.group(2), m.group(3), m.group(4), describe(chains[int(m.group(1)) - 1])))
     viols = []
     for m in re.finditer(r'<<"OBSVIOL", (\d+), "([A-Za-z0-9_]+)", (\d+), "([^"]*)", "([^"]*)">>', out):
@@ -189,7 +189,7 @@ def run(pid, tier, seed, replay=None):
         "checker_cmd": "tlc ValuesChainMC.tla ; hv_values c13 ; tlc ValuesChainObs.tla",
     }
     assumptions = [
-        "every operation of a chain succeeds (no faults): the deployed revision is the last one; failed upgrades are the subject of C01/C03",
+        "an upgrade either succeeds or fails at its cluster update (recorded as a failed revision, the deployed one stays); other failure points and crashes are the subject of C01/C03",
         "root chart only (no subcharts); value trees over the keys a (with b, c below), k, n; scalars tagged by the step that supplied them",
         "simulated cluster and scripted waiter as for the core family; release storage on secrets, configmaps (JSON round trip) and memory",
         "a null-valued key and a missing key are the same observation for what templates see; in the recorded Config they are different",
